@@ -233,14 +233,15 @@ impl<R: Read + Seek> ReadBox<&mut R> for AvcCBox {
         let length_size_minus_one = reader.read_u8()? & 0x3;
         let num_of_spss = reader.read_u8()? & 0x1F;
         let mut sequence_parameter_sets = Vec::with_capacity(num_of_spss as usize);
+        let end = start.saturating_add(size);
         for _ in 0..num_of_spss {
-            let nal_unit = NalUnit::read(reader)?;
+            let nal_unit = NalUnit::read(reader, end)?;
             sequence_parameter_sets.push(nal_unit);
         }
         let num_of_ppss = reader.read_u8()?;
         let mut picture_parameter_sets = Vec::with_capacity(num_of_ppss as usize);
         for _ in 0..num_of_ppss {
-            let nal_unit = NalUnit::read(reader)?;
+            let nal_unit = NalUnit::read(reader, end)?;
             picture_parameter_sets.push(nal_unit);
         }
 
@@ -298,8 +299,19 @@ impl NalUnit {
         2 + self.bytes.len()
     }
 
-    fn read<R: Read + Seek>(reader: &mut R) -> Result<Self> {
+    /// `end`: position at which the enclosing avcC box ends; a NAL unit may not extend beyond it.
+    fn read<R: Read + Seek>(reader: &mut R, end: u64) -> Result<Self> {
+        if reader.stream_position()?.saturating_add(2) > end {
+            return Err(Error::InvalidData(
+                "avcC parameter set extends beyond the box",
+            ));
+        }
         let length = reader.read_u16::<BigEndian>()? as usize;
+        if reader.stream_position()?.saturating_add(length as u64) > end {
+            return Err(Error::InvalidData(
+                "avcC parameter set extends beyond the box",
+            ));
+        }
         let mut bytes = vec![0u8; length];
         reader.read_exact(&mut bytes)?;
         Ok(NalUnit { bytes })
